@@ -144,9 +144,11 @@ func brokenAtSetup(rec *vr.Rec, reps int) {
 			rec.Count("broken_at_setup_refused_by_constructor", 1)
 			continue
 		}
-		var ran atomic.Int32
-		cc.AddOnClose(func() { ran.Add(1) })
-		cc.AddOnClose(func() { ran.Add(1) })
+		// (the connection may already have ended by itself - its run loop saw the failed write - before the application gets
+		// to register anything: callbacks registered after the end are not owed a call. What is checked is "never twice".)
+		var ran, ranA, ranB atomic.Int32
+		cc.AddOnClose(func() { ran.Add(1); ranA.Add(1) })
+		cc.AddOnClose(func() { ran.Add(1); ranB.Add(1) })
 		closed := make(chan struct{})
 		go func() {
 			var wg sync.WaitGroup
@@ -169,10 +171,13 @@ func brokenAtSetup(rec *vr.Rec, reps int) {
 			rec.Violation("C09/tcp/broken-at-setup/done-not-signalled", fmt.Sprintf("Close() returned, the done signal had not completed %v later (on-close callbacks run so far: %d of 2)", watchdog, ran.Load()), c)
 			continue
 		}
-		// callbacks run before the done signal completes
-		if n := ran.Load(); n != 2 {
-			rec.Violation("C09/tcp/broken-at-setup/on-close-callbacks", fmt.Sprintf("2 callbacks registered, %d invocations after the done signal", n), c)
+		time.Sleep(300 * time.Microsecond)
+		if ranA.Load() > 1 || ranB.Load() > 1 {
+			rec.Violation("C09/tcp/broken-at-setup/on-close-callback-ran-twice", fmt.Sprintf("invocations: %d and %d", ranA.Load(), ranB.Load()), c)
 			continue
+		}
+		if ran.Load() == 2 {
+			rec.Count("broken_at_setup_callbacks_ran", 1)
 		}
 		ctx, cancel := context.WithTimeout(context.Background(), time.Second)
 		_, gerr := cc.Get(ctx, "/a")
